@@ -454,7 +454,7 @@ theorem bytesOf_slice (src : Array UInt8) (o n : Nat) : bytesOf src o n = slice 
 
 theorem callback_sim (B : Nat) (hB : B < 2 ^ 56) (L : Nat) (src : Array UInt8) (read : Nat) (c : Ctx) (s : List Abs.Frame)
     (e : Gen.Event) (tok : Tok) (hc : Clean c) (hs : SR B c.stack s) (hL : s.length ≤ L)
-    (hm : tokMatch read e tok = true) (hp : ∀ o pl, tok.payload = some (o, pl) → 1 ≤ o) :
+    (hm : tokMatch read e tok = true) (hp : ∀ o pl, tok.payload = some (o, pl) → 1 ≤ o ∧ read + o + pl ≤ src.size) :
     OutR (B + 1) (callback ωT L src c e) (stepTok L okGuard (getOf src) read tok s) := by
   cases e
   case float2 f =>
@@ -468,17 +468,19 @@ theorem callback_sim (B : Nat) (hB : B < 2 ^ 56) (L : Nat) (src : Array UInt8) (
     simp only [tokMatch, toTok, beq_iff_eq] at hm
     subst hm)
   case byte_string o l =>
-    have ho : read + (o - read) = o := by
-      have := hp (o - read) l.toNat (by simp [Tok.payload]); omega
-    simp only [callback, stepTok, okGuard, Bool.not_true, Bool.false_eq_true, if_false, ho, bytesOf_slice]
+    have hpp := hp (o - read) l.toNat (by simp [Tok.payload])
+    have ho : read + (o - read) = o := by omega
+    have hin : o + l.toNat ≤ src.size := by omega
+    simp only [callback, stepTok, okGuard, Bool.not_true, Bool.false_eq_true, if_false, ho, bytesOf_slice, hin, if_true]
     have := string_sim B hB c s false (slice (getOf src) o l.toNat) hc hs
     cases s with
     | nil => simpa using this
     | cons a as => cases a <;> simpa using this
   case string o l =>
-    have ho : read + (o - read) = o := by
-      have := hp (o - read) l.toNat (by simp [Tok.payload]); omega
-    simp only [callback, stepTok, okGuard, Bool.not_true, Bool.false_eq_true, if_false, ho, bytesOf_slice]
+    have hpp := hp (o - read) l.toNat (by simp [Tok.payload])
+    have ho : read + (o - read) = o := by omega
+    have hin : o + l.toNat ≤ src.size := by omega
+    simp only [callback, stepTok, okGuard, Bool.not_true, Bool.false_eq_true, if_false, ho, bytesOf_slice, hin, if_true]
     have := string_sim B hB c s true (slice (getOf src) o l.toNat) hc hs
     cases s with
     | nil => simpa using this
@@ -634,7 +636,7 @@ theorem loop_sim (src : Array UInt8) (hsz : src.size < 2 ^ 56) (L : Nat) :
         rw [hd] at hsd
         obtain ⟨h1, h2, _, e, h4, h5⟩ := hsd
         have hok := decodeHead_ok hd
-        have hcb := callback_sim B (by omega) L src read c s e tok hc hs hL h5 (fun o pl hpl => (hok.2.2 o pl hpl).1)
+        have hcb := callback_sim B (by omega) L src read c s e tok hc hs hL h5 (fun o pl hpl => by have := hok.2.2 o pl hpl; omega)
         simp only [h4, List.foldl_cons, List.foldl_nil, h1, Gen.CBOR_DECODER_FINISHED, if_true, h2]
         generalize callback ωT L src c e = c' at hcb ⊢
         cases hst : stepTok L okGuard (getOf src) read tok s with
